@@ -104,6 +104,13 @@ static void step_hook(VmState *vm, uint32_t ip) {
     fprintf(T, "%u:%u:%u:", ip, vm->stack_size, vm->frame_count);
     for (uint32_t i = 0; i < vm->stack_size; i++) { if (i) fputc(',', T); put_val(T, vm->stack[i]); }
     fputc(':', T);
+    for (uint32_t i = 0; i < vm->global_count; i++) { if (i) fputc(',', T); put_val(T, vm->globals[i]); }
+    fputc(':', T);
+    for (uint32_t i = vm->frame_count; i > 0; i--) {      /* innermost first */
+        if (i != vm->frame_count) fputc(',', T);
+        if (vm->frames[i - 1].closure) { NanoValue cv = val_closure(vm->frames[i - 1].closure); put_val(T, cv); } else fputc('-', T);
+    }
+    fputc(':', T);
     put_heap(T);
     fputc('|', T);
 }
